@@ -117,6 +117,10 @@ func (e *Evidence) ValidateAndSign(signer cose.Signer) ([]byte, error) {
 
 	e.message = cose.NewSign1Message()
 
+	if e.Claims == nil {
+		return nil, errors.New("no claims to sign")
+	}
+
 	var err error
 	e.message.Payload, err = ValidateAndEncodeClaimsToCBOR(e.Claims)
 	if err != nil {
@@ -133,6 +137,10 @@ func (e *Evidence) ValidateAndSign(signer cose.Signer) ([]byte, error) {
 func (e *Evidence) Sign(signer cose.Signer) ([]byte, error) {
 
 	e.message = cose.NewSign1Message()
+
+	if e.Claims == nil {
+		return nil, errors.New("no claims to sign")
+	}
 
 	var err error
 	e.message.Payload, err = EncodeClaimsToCBOR(e.Claims)
